@@ -42,7 +42,7 @@ def canchor(a):
         return {AnchorEnum.EDGE: "AnEdge", AnchorEnum.CENTER: "AnCenter", AnchorEnum.FLOATING: "AnFloating"}[a]
     if isinstance(a, str):
         return {"default": "AnDefault", "edge": "AnEdge", "center": "AnCenter", "centre": "AnCenter", "floating": "AnFloating"}[a]
-    return f"(AnNum {cq(F(a))})"
+    return f"(AnNum {cq(F(float(a)))})"
 
 
 def cresolution(r):
@@ -64,7 +64,7 @@ def cshape(s):
 
 def anchor_key(a):
     from odc.geo import XY
-    return ("xy", a.x, a.y) if isinstance(a, XY) else str(a)
+    return ("xy", a.x, a.y) if isinstance(a, XY) else f"{type(a).__name__}:{a}"
 
 
 def anchor_offsets(tight, a):
@@ -75,6 +75,9 @@ def anchor_offsets(tight, a):
         return None
     if isinstance(a, XY):
         return F(a.x), F(a.y)
+    import numpy as np
+    if isinstance(a, (np.floating, np.integer)):
+        a = float(a)                                                   # numpy scalars are numbers like any other
     if a in ("default", "edge", AnchorEnum.EDGE) or (isinstance(a, (int, float)) and a == 0):
         return F(0), F(0)
     if a in ("center", "centre", AnchorEnum.CENTER) or (isinstance(a, (int, float)) and a == 0.5):
@@ -86,10 +89,12 @@ def anchor_offsets(tight, a):
 
 # ---------------------------------------------------------------- input domain
 def rand_anchor(rng, valid_only=False):
+    import numpy as np
     from odc.geo import xy_
     from odc.geo.geobox import AnchorEnum
     good = ["default", "default", "edge", "center", "centre", "floating", AnchorEnum.EDGE, AnchorEnum.CENTER,
-            AnchorEnum.FLOATING, 0, 0.5, 0.25, 0.75, 0.375, 2.0 ** -20, xy_(0.25, 0.5), xy_(0.0, 0.5), xy_(0.5, 0.0),
+            AnchorEnum.FLOATING, 0, 0.5, 0.25, 0.75, 0.375, 2.0 ** -20, np.float32(0.5), np.float32(0.25), np.float64(0.75),
+            np.int64(0), np.int32(0), np.float32(0.0), xy_(0.25, 0.5), xy_(0.0, 0.5), xy_(0.5, 0.0),
             xy_(0.875, 0.125), xy_(1 - 2.0 ** -30, 2.0 ** -30)]
     if valid_only or rng.random() < 0.93:
         return rng.choice(good)
@@ -142,6 +147,15 @@ def bbox_case(rng):
     if rng.random() < 0.04:
         l, r = r, l
     return (l, b, r, t), dict(tight=tight, resolution=resolution, anchor=anchor, tol=tol)
+
+
+def cres_or_none(f, call):
+    """cres, but an exception kind the model does not know (e.g. KeyError for a legal anchor) yields (None, kind):
+    the case is then judged by the property predicate only, which reports it with the concrete input"""
+    try:
+        return cres(f, call)
+    except Exception as e:  # noqa: BLE001
+        return None, "unexpected:" + type(e).__name__
 
 
 def call_from_bbox(bb, kw, wrap=False):
@@ -198,8 +212,43 @@ def crs_polygon(rng, pairs=None):
     if src == "epsg:4326":
         r = r / 1.1e5
     cx, cy = cx + rng.uniform(-5, 5) * r, cy + rng.uniform(-5, 5) * r
-    kind = rng.choice(["diamond", "diamond", "sliver", "sliver", "triangle", "convex", "rectangle"])
-    if kind == "diamond":
+    kind = rng.choice(["diamond", "diamond", "sliver", "sliver", "triangle", "convex", "rectangle",
+                       "notched", "notched", "notched", "star", "bowtie", "bowtie", "multi"])
+    if kind == "notched":
+        # concave: a wide box whose top or bottom edge has a reflex vertex a hair INSIDE the convex hull; after a non-linear
+        # reprojection that vertex can become the extreme point of the footprint
+        w, h = r * rng.choice([1, 5, 30, 50]), r * rng.choice([0.3, 1, 3])
+        if src == "epsg:4326":
+            w, h = min(w, 3.0), min(h, 1.5)
+        depth = h * rng.choice([1e-3, 1e-4, 1e-5])
+        fx = rng.choice([0.5, 0.5, 0.3, 0.7])
+        box = [(cx - w, cy - h), (cx - w, cy + h), (cx + w, cy + h), (cx + w, cy - h)]
+        top = (cx - w + 2 * w * fx, cy + h - depth)
+        bot = (cx - w + 2 * w * fx, cy - h + depth)
+        pts = {0: [box[0], box[1], top, box[2], box[3]], 1: [box[0], box[1], box[2], box[3], bot],
+               2: [box[0], box[1], top, box[2], box[3], bot]}[rng.randint(0, 2)]
+    elif kind == "star":
+        k, a0 = rng.choice([4, 5, 6, 8]), rng.uniform(0, 6.28)
+        inner = rng.choice([0.2, 0.5, 0.9, 0.99])
+        pts = [(cx + r * (1 if i % 2 == 0 else inner) * math.cos(a0 + math.pi * i / k),
+                cy + r * (1 if i % 2 == 0 else inner) * math.sin(a0 + math.pi * i / k)) for i in range(2 * k)]
+    elif kind == "bowtie":
+        # self-crossing ring (invalid as a polygon, a legal footprint outline): both lobes belong to the region
+        w, h = r * rng.choice([1, 3, 10]), r * rng.choice([0.3, 1])
+        if src == "epsg:4326":
+            w, h = min(w, 3.0), min(h, 1.5)
+        pts = [(cx - w, cy - h), (cx + w, cy + h), (cx + w, cy - h * rng.choice([1, 0.5])), (cx - w, cy + h)]
+        if rng.random() < 0.5:
+            pts = [(y - cy + cx, x - cx + cy) for x, y in pts] if src != "epsg:4326" else pts
+    elif kind == "multi":
+        d = r * rng.choice([1.5, 4, 10])
+        if src == "epsg:4326":
+            d = min(d, 2.0)
+        rings = [[(cx - r / 2, cy), (cx, cy + r / 2), (cx + r / 2, cy), (cx, cy - r / 2)],
+                 [(cx + d, cy + d / 3), (cx + d + r / 3, cy + d / 3 + r), (cx + d + r, cy + d / 3 - r / 4)],
+                 [(cx - d, cy - d), (cx - d, cy - d + r / 5), (cx - d + r / 5, cy - d + r / 5), (cx - d + r / 5, cy - d)]][:rng.choice([2, 3])]
+        return kind, src, dst, tuple(tuple((float(x), float(y)) for x, y in ring) for ring in rings)
+    elif kind == "diamond":
         pts = [(cx - r, cy), (cx, cy + r), (cx + r, cy), (cx, cy - r)]
     elif kind == "sliver":
         w = r / rng.choice([20, 50, 200])
@@ -216,7 +265,30 @@ def crs_polygon(rng, pairs=None):
     return kind, src, dst, tuple((float(x), float(y)) for x, y in pts)
 
 
+def rings_of(pts):
+    """pts is one open ring, or a tuple of open rings (multi-polygon)"""
+    pts = [tuple(p) for p in pts]
+    if pts and isinstance(pts[0][0], (tuple, list)):
+        return [[tuple(q) for q in ring] for ring in pts]
+    return [pts]
+
+
+def make_geom(pts, src):
+    from odc.geo.geom import multipolygon, polygon
+    rings = rings_of(pts)
+    if len(rings) == 1:
+        return polygon(rings[0] + [rings[0][0]], src)
+    return multipolygon([[ring + [ring[0]]] for ring in rings], src)
+
+
 def reference_bbox(pts, src, dst, n=DENSE_N):
+    """all rings of the region: (tight bbox of the densified projected outline, bbox of ALL projected vertices)"""
+    boxes = [_reference_bbox_ring(ring, src, dst, n) for ring in rings_of(pts)]
+    merge = lambda k: (min(b[k][0] for b in boxes), min(b[k][1] for b in boxes), max(b[k][2] for b in boxes), max(b[k][3] for b in boxes))
+    return merge(0), merge(1)
+
+
+def _reference_bbox_ring(pts, src, dst, n=DENSE_N):
     """independent reference: every edge densified (n points, vertices included), projected with pyproj
     directly; returns (tight bbox of the projected dense ring, bbox of the projected vertices only)"""
     import numpy as np
@@ -291,11 +363,14 @@ def gen_cases(out, tier):
         if not from_bbox_exact(bb, kw):
             out.count("escape:from_bbox_resolution")
             continue
-        t, kind = cres(cgbox, lambda: call_from_bbox(bb, kw))
+        t, kind = cres_or_none(cgbox, lambda: call_from_bbox(bb, kw))
+        kept["res"].append((bb, kw))
+        if t is None:
+            out.count("from_bbox:resolution:" + kind)
+            continue
         snap = "float" if anchor_offsets(kw["tight"], kw["anchor"]) is None else "snap"
         add(f"from_bbox:resolution:{kind}:{snap}", f"{bbox_text(bb, kw)} {t}", (bb, kw_key(kw)), True,
             {"op": "GeoBox.from_bbox", "bbox": list(bb), "kwargs": {k: str(v) for k, v in kw.items()}, "result": t} if i < 6 else None)
-        kept["res"].append((bb, kw))
 
     # --- shape driven: (ny, nx)
     for i in range(350 * mult):
@@ -321,7 +396,12 @@ def gen_cases(out, tier):
         if not from_bbox_exact((l, b, r, t), kw):
             out.count("escape:from_bbox_shape")
             continue
-        tt, kind = cres(cgbox, lambda: call_from_bbox((l, b, r, t), kw))
+        tt, kind = cres_or_none(cgbox, lambda: call_from_bbox((l, b, r, t), kw))
+        if tt is None:
+            out.count("from_bbox:shape:" + kind)
+            if "shape" in kw:
+                kept["shape"].append(((l, b, r, t), kw))
+            continue
         add(f"from_bbox:shape:{kind}", f"{bbox_text((l, b, r, t), kw)} {tt}", ((l, b, r, t), kw_key(kw)), True,
             {"op": "GeoBox.from_bbox", "bbox": [l, b, r, t], "kwargs": {k: str(v) for k, v in kw.items()}, "result": tt} if i < 3 else None)
         if "shape" in kw:
@@ -349,7 +429,11 @@ def gen_cases(out, tier):
         if not from_bbox_exact((l, b, r, t), kw):
             out.count("escape:from_bbox_int_shape")
             continue
-        tt, kind = cres(cgbox, lambda: call_from_bbox((l, b, r, t), kw))
+        tt, kind = cres_or_none(cgbox, lambda: call_from_bbox((l, b, r, t), kw))
+        if tt is None:
+            out.count("from_bbox:int_shape:" + kind)
+            kept["int"].append(((l, b, r, t), kw))
+            continue
         add(f"from_bbox:int_shape:{kind}", f"{bbox_text((l, b, r, t), kw)} {tt}", ((l, b, r, t), kw_key(kw)))
         kept["int"].append(((l, b, r, t), kw))
 
@@ -401,7 +485,11 @@ def gen_cases(out, tier):
         if not from_bbox_exact(tuple(pb.bbox), ekw):
             out.count("escape:from_geopolygon")
             continue
-        tt, kind = cres(cgbox, lambda: GeoBox.from_geopolygon(poly, **pkw))
+        tt, kind = cres_or_none(cgbox, lambda: GeoBox.from_geopolygon(poly, **pkw))
+        if tt is None:
+            out.count("from_geopolygon:" + kind)
+            kept["poly"].append((tuple(pts), pkw))
+            continue
         calign = "None" if align is None else f"(Some {ctuple(cq(F(align.x)), cq(F(align.y)))})"
         tol = 0.01 if "tol" not in pkw else pkw["tol"]
         add(f"from_geopolygon:{kind}:{'align' if align is not None else 'anchor'}",
@@ -415,7 +503,7 @@ def gen_cases(out, tier):
     #     arbitrary floats, so a case is kept for the exact comparison only when every rounding decision is robust.
     for i in range(70 * mult):
         kind, src, dst, pts = crs_polygon(rng)
-        poly = polygon(list(pts) + [pts[0]], src)
+        poly = make_geom(pts, src)
         pb = tuple(poly.to_crs(dst).boundingbox.bbox)
         span = max(pb[2] - pb[0], pb[3] - pb[1])
         res = nice_resolution(rng, span)
@@ -435,7 +523,10 @@ def gen_cases(out, tier):
                 and decisions_robust(pb[1], pb[3], ry, None if off is None else off[1], tolv)):
             out.count("escape:from_geopolygon_crs")
             continue
-        tt, kind_ = cres(cgbox, lambda: GeoBox.from_geopolygon(poly, crs=dst, **pkw))
+        tt, kind_ = cres_or_none(cgbox, lambda: GeoBox.from_geopolygon(poly, crs=dst, **pkw))
+        if tt is None:
+            out.count("from_geopolygon:crs:" + kind_)
+            continue
         add(f"from_geopolygon:crs:{kind_}:{kind}",
             f"CFromPoly {cbbox(pb)} {cresolution(res)} None ShNone {cbool(tight)} {canchor(anchor)} {cq(F(tolv))} {tt}",
             (pts, src, dst, kw_key(pkw)), True,
@@ -647,12 +738,15 @@ def p_polygon_crs(pts, src, dst, pkw):
     off = anchor_offsets(pkw["tight"], pkw["anchor"])
     if rx == 0 or ry == 0 or tol < 0 or (off is not None and not all(0 <= v < 1 for v in off)):
         return True, "outside the property's domain"
-    g = GeoBox.from_geopolygon(polygon(pts + [pts[0]], src), crs=dst, **pkw)
+    g = GeoBox.from_geopolygon(make_geom(pts, src), crs=dst, **pkw)
     return judge_projected(g, pts, src, dst, pkw)
 
 
-def judge_projected(g, pts, src, dst, pkw):
-    """g: GeoBox built from the polygon pts (in src) reprojected to dst; reference: pyproj called directly"""
+def judge_projected(g, pts, src, dst, pkw, bulge_share=1.0):
+    """g: GeoBox built from the polygon pts (in src) reprojected to dst; reference: pyproj called directly.
+    bulge_share: share of the chord bulge (curved edges beyond the projected vertices) that may stay uncovered: 1 for
+    polygons (the implementation projects the vertices only), 1/500 for the lon/lat box of the 'utm' path, which the
+    implementation densifies before projecting (residual measured: 1/2000 of the bulge)"""
     rx, ry = res_xy(pkw["resolution"])
     tol = pkw.get("tol", 0.01)
     off = anchor_offsets(pkw["tight"], pkw["anchor"])
@@ -666,7 +760,7 @@ def judge_projected(g, pts, src, dst, pkw):
         lo = tx if res > 0 else tx + n * res
         hi = lo + n * a
         ex_lo, ex_hi = (lo_ref - lo) / a, (hi - hi_ref) / a              # excess over the tight reference box, pixels
-        bulge = max(lo_v - lo_ref, hi_ref - hi_v, 0.0) / a               # curved edges beyond the projected vertices
+        bulge = bulge_share * max(lo_v - lo_ref, hi_ref - hi_v, 0.0) / a  # curved edges beyond the projected vertices
         ok = ok and ex_lo < 1 + tol + EPS_PX and ex_hi < 1 + tol + EPS_PX
         ok = ok and ex_lo >= -(tol + bulge + EPS_PX) and ex_hi >= -(tol + bulge + EPS_PX)
         if o is not None:
@@ -700,7 +794,7 @@ def p_bbox_utm(bbox, resolution, anchor):
     dst = f"epsg:{(32600 if (b + t) / 2 >= 0 else 32700) + zone}"
     g = GeoBox.from_bbox(tuple(bbox), "utm", resolution=resolution, anchor=anchor)
     pkw = dict(resolution=resolution, anchor=anchor, tight=False)
-    return judge_projected(g, [(l, b), (l, t), (r, t), (r, b)], "epsg:4326", dst, pkw)
+    return judge_projected(g, [(l, b), (l, t), (r, t), (r, b)], "epsg:4326", dst, pkw, bulge_share=1 / 500)
 
 
 PREDICATES = {"resolution": p_resolution, "shape": p_shape, "int_shape": p_int_shape, "polygon": p_polygon, "polygon_crs": p_polygon_crs, "bbox_utm": p_bbox_utm, "zoom": p_zoom}
@@ -708,11 +802,14 @@ PREDICATES["after_history"] = crshist.after_history(PREDICATES)
 
 
 def enc_kw(v):
+    import numpy as np
     from odc.geo import XY
     from odc.geo.geobox import AnchorEnum
     from odc.geo.types import Resolution
     if isinstance(v, Resolution):
         return {"res": [v.x.hex(), v.y.hex()]}
+    if isinstance(v, (np.floating, np.integer)):
+        return {"np": [type(v).__name__, float(v).hex()]}
     if isinstance(v, XY):
         return {"xy": [float(v.x).hex(), float(v.y).hex()]}
     if isinstance(v, AnchorEnum):
@@ -729,6 +826,9 @@ def dec_kw(v):
     from odc.geo.geobox import AnchorEnum
     if isinstance(v, dict) and "res" in v:
         return resxy_(float.fromhex(v["res"][0]), float.fromhex(v["res"][1]))
+    if isinstance(v, dict) and "np" in v:
+        import numpy as np
+        return getattr(np, v["np"][0])(float.fromhex(v["np"][1]))
     if isinstance(v, dict) and "xy" in v:
         return xy_(float.fromhex(v["xy"][0]), float.fromhex(v["xy"][1]))
     if isinstance(v, dict) and "enum" in v:
@@ -770,7 +870,8 @@ def search(out, tier, kept):
     for pts, src, dst, pkw in kept["polycrs"]:
         run("polygon_crs", pts, src, dst, pkw)
     rng = core.rng("c08-history")
-    for bbox in [(148.1, -35.9, 148.8, -35.2), (15.2, 59.1, 15.9, 59.6)]:      # 'utm' path of from_bbox, pristine process state
+    for bbox in [(148.1, -35.9, 148.8, -35.2), (15.2, 59.1, 15.9, 59.6),      # 'utm' path of from_bbox, pristine process state
+                 (2.0, 40.0, 4.0, 43.0), (-76.5, -12.0, -73.5, -10.0), (86.2, 20.0, 87.9, 21.5)]:   # straddling the central meridian
         run("bbox_utm", bbox, rng.choice([30.0, 100.0, 250.0]), rng.choice(["default", "center"]))
 
     # the reprojecting variants again AFTER process histories of the CRS layer (cache of CRS objects / transformers);
